@@ -118,7 +118,9 @@ def atoms():
           ('body', b'TEXT', b'X-Tag')]
     for s in (b'1', b'2:1', b'*', b'1:*', b'9', b'2,4', b'4:*'):
         A.append(('seq', s))
-    for s in (b'101', b'102:103', b'999', b'102', b'104:*'):
+    # (2,4 and 2:1 also as UID sets: same text as a sequence-number atom,
+    # different meaning -- UIDs start at 101 here)
+    for s in (b'101', b'102:103', b'999', b'102', b'104:*', b'2,4', b'2:1'):
         A.append(('uid', s))
     return A
 
